@@ -26,12 +26,47 @@ class Ctx:
         self.repo = pathlib.Path(repo or os.environ.get('QV_REPO', '/repo'))
         self.prog = Program(self.repo, overrides=overrides)
         self.res = Resolver(self.prog)
+        U.INLINER = self._inline_call
         self.c_overrides = c_overrides or {}
         self._cprog = None
         self.instances = []      # dicts
         self.info = []           # informational notes
         self.rule_floor = {}     # rule -> (min instances, description)
         self.rule_desc = {}
+
+    def _inline_call(self, call):
+        """Inline a call of a trivial module-level predicate helper (body: one `return <expr>`)."""
+        import ast as _ast
+        import copy
+        if not isinstance(call.func, _ast.Name) or call.keywords or any(isinstance(a, _ast.Starred) for a in call.args):
+            return None
+        n = call
+        while getattr(n, '_parent', None) is not None:
+            n = n._parent
+        mod = None
+        for m in self.prog.modules.values():
+            if m.tree is n:
+                mod = m
+        if mod is None:
+            return None
+        r = self.prog.resolve_expr(mod, call.func)
+        if not r or r[0] != 'func':
+            return None
+        f = r[1]
+        body = U.strip_docstring(f.node.body)
+        if len(body) != 1 or not isinstance(body[0], _ast.Return) or body[0].value is None:
+            return None
+        params = f.params
+        if len(params) != len(call.args) or f.node.args.vararg or f.node.args.kwarg:
+            return None
+        amap = dict(zip(params, call.args))
+
+        class Sub(_ast.NodeTransformer):
+            def visit_Name(self, node):
+                if node.id in amap and isinstance(node.ctx, _ast.Load):
+                    return copy.deepcopy(amap[node.id])
+                return node
+        return _ast.fix_missing_locations(Sub().visit(copy.deepcopy(body[0].value)))
 
     @property
     def cprog(self):
